@@ -472,6 +472,28 @@ func drawScenario(t *rapid.T) []Op {
 		}
 		ops = append(ops, op)
 	}
+	// a second template whose id is a string prefix or extension of the first (associations
+	// are found by a key-prefix scan), with tasks of its own
+	if often(t, "sc-second", 50) {
+		var rel []string
+		for _, id := range tmplIDs {
+			if id != tid && (strings.HasPrefix(id, tid) || strings.HasPrefix(tid, id)) {
+				rel = append(rel, id)
+			}
+		}
+		if len(rel) > 0 {
+			tid2 := pick(t, "sc-tmpl2", rel)
+			script2 := pick(t, "sc-script2", []string{tIntTh, tWindow, tDBRP})
+			ops = append(ops, Op{K: "tcreate", ID: tid2, Script: script2})
+			for i, m := n, rapid.IntRange(1, 2).Draw(t, "sc-tasks2"); i < n+m && i < len(ids); i++ {
+				op := Op{K: "create", ID: ids[i], Tmpl: tid2, Status: drawStatus(t), Vars: vInt}
+				if len(scriptDBRPs(script2)) == 0 {
+					op.DBRPs = pick(t, "dbrps", dbrpPool)
+				}
+				ops = append(ops, op)
+			}
+		}
+	}
 	return ops
 }
 
